@@ -170,4 +170,78 @@ example : SmallObject exObj ∧ SmallAddrs2 exObj := by
   unfold SmallAddrs2
   decide
 
+/-! ### the segment half on the flat domain -/
+
+theorem mapM_calcSegAlign_src (secs : List SecBuf) (l l' : List Seg)
+    (h : l.mapM (calcSegAlign secs) = .ok l') :
+    ∀ g' ∈ l', ∃ g ∈ l, g' = { g with align := g'.align } := by
+  induction l generalizing l' with
+  | nil =>
+    simp only [List.mapM_nil, pure, Except.pure, Except.ok.injEq] at h; subst h
+    intro g' hg'; exact absurd hg' List.not_mem_nil
+  | cons g rest ih =>
+    rw [List.mapM_cons] at h
+    simp only [bind, Except.bind] at h
+    cases hg : calcSegAlign secs g with
+    | error e => rw [hg] at h; simp at h
+    | ok g1 =>
+      rw [hg] at h
+      simp only at h
+      cases hr : rest.mapM (calcSegAlign secs) with
+      | error e => rw [hr] at h; simp at h
+      | ok r' =>
+        rw [hr] at h
+        simp only [pure, Except.pure, Except.ok.injEq] at h
+        subst h
+        intro g' hg'
+        rcases List.mem_cons.1 hg' with rfl | hg'
+        · exact ⟨g, List.mem_cons_self .., calcSegAlign_fields secs g _ hg⟩
+        · obtain ⟨g0, hg0, he⟩ := ih r' hr g' hg'
+          exact ⟨g0, List.mem_cons_of_mem _ hg0, he⟩
+
+/-- every saved segment is the result `t.g'` of a turn whose input segment `t.g` is an input segment
+    of the object up to `align` -/
+theorem saved_seg_turn {o : Obj} {os : OStream} {r : SaveRes} {hd : Bytes}
+    (hs : save o os = .ok r) (hok : r.ok = true) (D : Compose.FlatDomain o hd)
+    (res : LayoutRes) (hl : layoutOf (preSave o) hd = .ok (some res)) (g : Seg) (hg : g ∈ r.obj.segs) :
+    ∃ t ∈ res.trace (preSave o), g = t.g' ∧ ∃ g0 ∈ o.segs, t.g = { g0 with align := t.g.align } := by
+  obtain ⟨res', hl', hsegs, -, -⟩ := save_secs_hdr o os r hd hs hok D.hdr
+  rw [hl] at hl'
+  obtain rfl : res = res' := by injection hl' with e; injection e
+  rw [hsegs] at hg
+  have hn' : (preSave o).secs.length < 65536 := by rw [preSave_length]; exact D.input.nsecs
+  have h0' := preSave_h0 o D.input.h0
+  have hnd : (o.segs.map (·.index)).Nodup :=
+    C03.nodup_of_segIdx (RoundTrip.idx_of_B _ _ D.input.segIdx)
+  obtain ⟨t, ht, rfl⟩ := final_segs_turn (preSave o) hd res hl D.nw hn' h0' hnd g hg
+  refine ⟨t, ht, rfl, ?_⟩
+  obtain ⟨e1, -, -⟩ := layoutOf_trace (preSave o) hd res hl D.nw hn' h0'
+  obtain ⟨-, -, hm, ho, -⟩ := layoutOf_parts (preSave o) hd res hl
+  have hto : t.g ∈ res.ordered := by rw [← e1]; exact List.mem_map_of_mem ht
+  have := (orderedSegments_perm _ _ ho).mem_iff.1 hto
+  exact mapM_calcSegAlign_src _ _ _ hm t.g this
+
+/-- **`offset + filesz` of the saved segments, flat domain** — no bounds needed -/
+theorem save_segments_file_noWrap_flat {o : Obj} {os : OStream} {r : SaveRes} {hd : Bytes}
+    (hs : save o os = .ok r) (hok : r.ok = true) (D : Compose.FlatDomain o hd) :
+    ∀ g ∈ r.obj.segs, g.offset.toNat + g.filesz.toNat < 18446744073709551616 := by
+  intro g hg
+  by_cases hfs : g.filesz.toNat = 0
+  · have := g.offset.isLt; omega
+  · obtain ⟨res, hl, -, -, -⟩ := save_secs_hdr o os r hd hs hok D.hdr
+    have hn' : (preSave o).secs.length < 65536 := by rw [preSave_length]; exact D.input.nsecs
+    have h0' := preSave_h0 o D.input.h0
+    have hnd : (o.segs.map (·.index)).Nodup :=
+      C03.nodup_of_segIdx (RoundTrip.idx_of_B _ _ D.input.segIdx)
+    obtain ⟨t, ht, hgt, g0, hg0, he⟩ := saved_seg_turn hs hok D res hl g hg
+    obtain ⟨-, -, e3⟩ := layoutOf_trace (preSave o) hd res hl D.nw hn' h0'
+    obtain ⟨f1, f2, f3, -⟩ := e3 t ht
+    obtain ⟨-, hsecs, -, -, hty, -⟩ := layoutSegment_marks _ _ _ _ _ _ _ _ _ f3 f2 f1
+    have hph : lseg_is_phdr g.stype (BitVec.ofNat 16 g.secs.length) = false := by
+      rw [hgt, hsecs, hty, he]; exact D.noPhdr g0 hg0
+    have := (RoundTrip.flat_seg_bounds hs hok D.hdr D.input.nsecs D.input.h0 D.nw hnd (fun _ => true) D.dom
+      g hg rfl hph hfs res hl).2
+    have := res.lay2.pos.isLt
+    omega
+
 end ElfioVerif.C04
